@@ -26,6 +26,7 @@ ASSUMPTIONS = ["stop() runs on the virtual clock: its 1 s polling sleeps are 1 m
                "'worker threads terminate' = each is flagged to stop and has exited within 40 scaled poll periods "
                "after stop() returned"]
 TIMEOUT = {"quick": 900, "thorough": 3600}
+SCTP_CLONES = {"quick": ['s11', 's5'], "thorough": ['s12', 's13', 's14', 's15']}
 STATES = ["connecting", "await_cer", "await_cea", "ready", "ready_idle_soon", "waiting_dwa", "disconnecting"]
 REACTIONS = ["prompt", "late", "never", "close", "dpa_then_close", "handshake_during_stop"]
 
